@@ -80,6 +80,17 @@ CHECKS = {
    design_ref='DESIGN.md 5 C03',
    note='Trusted as C01.',
    technique='Lean 4 proof over a source-generated model + rational certificate checker on real outputs'),
+ 'C15': dict(
+   category='proof',
+   text='Lean theorems about a reference column-major model of dense matrices: index normalisation (unbounded ints), slices stay in '
+        'range and are exactly Python ranges, two-argument indexing gives shape |I|x|J| with entry (a,b)=A[I a,J b], assignment writes '
+        'only addressed positions and read-after-write, type promotion is a join, in-place operators never change type or shape, size '
+        'assignment keeps the buffer. The model is tied to dense.c by an op-sequence correspondence over a heap of aliased matrices '
+        '(typecode, size, full contents, exception class, identity after every operation) and an exhaustive slice box against Python.',
+   design_ref='DESIGN.md 5 C15',
+   note='Trusted: Lean kernel, the hand-written model (validated by >100k compared operations per thorough run), harness. Out of the '
+        'model: buffer-protocol constructors, elementwise functions, printing, integer overflow of i entries.',
+   technique='Lean 4 proof over a hand-written reference model + op-sequence correspondence'),
 }
 REASONS = {}
 def main():
